@@ -1,7 +1,7 @@
 (* The predicate evaluated by the judge holds of the model's own output for all inputs:
    stream/unary transcripts, default names, and whole histories on a generated router. *)
 From SC Require Import Base.Prelude Router.Registry Router.RegistryProofs Router.Pump Router.PumpProofs
-  Router.Route Router.NameDefault Router.C12Judge.
+  Router.Route Router.NameDefault Router.RegistryW Router.RegistryWProofs Router.C12Judge.
 
 Lemma list_eqb_refl : forall {A} (e : A -> A -> bool) l, (forall x, e x x = true) -> list_eqb e l l = true.
 Proof. intros A e l H. induction l as [|x l IH]; cbn; auto. rewrite H, IH. reflexivity. Qed.
@@ -123,4 +123,47 @@ Proof.
   intros g first ops. cbn [C12_ok].
   destruct (hist_ok_sound g ops (init first) (mkP pempty [] first) (R_init first)) as [p' [Hh [_ [Hl _]]]].
   rewrite Hh, Hl. apply list_eqb_refl. apply change_eqb_refl.
+Qed.
+
+(* ---- agreement with the model implies the property predicate ---- *)
+Lemma list_eqb_impl : forall {A} (e1 e2 : A -> A -> bool) a b,
+  (forall x y, e1 x y = true -> e2 x y = true) -> list_eqb e1 a b = true -> list_eqb e2 a b = true.
+Proof.
+  intros A e1 e2 a. induction a as [|x a IH]; intros [|y b] Hi H; cbn in *; auto; try discriminate.
+  apply andb_true_iff in H. destruct H as [H1 H2]. rewrite (Hi _ _ H1), (IH _ Hi H2). reflexivity.
+Qed.
+
+Lemma rres_eqb_sim : forall a b, rres_eqb a b = true -> rres_sim a b = true.
+Proof. intros a b H. unfold rres_sim. destruct a as [c|x|[c|m]]; destruct b as [c'|x'|[c'|m']]; auto. Qed.
+
+Lemma wres_eqb_sim : forall a b, wres_eqb a b = true -> wres_sim a b = true.
+Proof.
+  intros [r1 a1 b1] [r2 a2 b2]. cbn. intros H. apply andb_true_iff in H. destruct H as [H Hb].
+  apply andb_true_iff in H. destruct H as [Hr Ha]. rewrite (rres_eqb_sim _ _ Hr), Ha, Hb. reflexivity.
+Qed.
+
+(* registries built from any option subset with per-call fallback/factory outcomes: whenever the
+   code's observation agrees with the model (RegistryW.v) it satisfies the plain-map predicate *)
+Theorem judge_agrees_ok_regw : forall o ops obs log, agrees (KRegW o ops obs log) = true -> C12_ok (KRegW o ops obs log) = true.
+Proof.
+  intros o ops obs log. cbn [agrees C12_ok]. unfold regw_ok.
+  assert (HR0 : RW (init 1) (mkP pempty [] 1)) by (split; auto).
+  destruct (registryW_is_map o ops _ _ HR0) as [Hrs [_ Hl]].
+  destruct (wrun o (init 1) ops) as [s rs]. destruct (prunW o (mkP pempty [] 1) ops) as [p prs]. cbn [fst snd] in *.
+  subst prs. intros H. apply andb_true_iff in H. destruct H as [H1 H2].
+  rewrite (list_eqb_impl _ _ _ _ wres_eqb_sim H1). unfold wlog in H2. rewrite Hl in H2. exact H2.
+Qed.
+
+Theorem judge_agrees_ok_default : forall name r obs,
+  agrees (KDefault name r obs) = true -> C12_ok (KDefault name r obs) = true.
+Proof.
+  intros name r obs. cbn [agrees C12_ok]. unfold unary_interceptor, default_ok, replace_empty_name.
+  destruct (shape r) as [| | |n|s] eqn:E; auto. cbn [andb]. destruct (String.eqb s ""); auto.
+Qed.
+
+Theorem judge_agrees_ok_default_stream : forall name ok r obs,
+  agrees (KDefaultStream name ok r obs) = true -> C12_ok (KDefaultStream name ok r obs) = true.
+Proof.
+  intros name ok r obs. cbn [agrees C12_ok]. unfold stream_recv, default_ok, replace_empty_name.
+  destruct ok; destruct (shape r) as [| | |n|s] eqn:E; auto. cbn [andb]. destruct (String.eqb s ""); auto.
 Qed.
